@@ -204,6 +204,24 @@ fn v_change(c: &Change) -> V {
         n(c.cl),
     ])
 }
+/// length of a generated list: small, and now and then just around the 1024 entries that the
+/// decoders use as the cap of their up-front allocation for a peer-supplied length
+fn glen(r: &mut Rng, small: u64) -> u64 {
+    if r.below(300) == 0 {
+        [1023, 1024, 1025, 1300, 2050][r.below(5) as usize]
+    } else {
+        r.below(small)
+    }
+}
+/// n ranges of u64; many of them are made small and disjoint (range sets coalesce what overlaps)
+fn g_ranges(r: &mut Rng, n: u64) -> Vec<(u64, u64)> {
+    if n > 100 {
+        let base = r.below(1 << 40);
+        (0..n).map(|i| (base + i * 16 + 1, base + i * 16 + 1 + r.below(5))).collect()
+    } else {
+        (0..n).map(|_| (g_u64(r), g_u64(r))).collect()
+    }
+}
 fn g_changeset(r: &mut Rng) -> Changeset {
     match r.below(3) {
         0 => Changeset::Empty {
@@ -212,13 +230,13 @@ fn g_changeset(r: &mut Rng) -> Changeset {
         },
         1 => Changeset::Full {
             version: CrsqlDbVersion(g_u64(r)),
-            changes: (0..r.below(5)).map(|_| g_change(r)).collect(),
+            changes: (0..glen(r, 5)).map(|_| g_change(r)).collect(),
             seqs: CrsqlSeq(g_u64(r))..=CrsqlSeq(g_u64(r)),
             last_seq: CrsqlSeq(g_u64(r)),
             ts: g_ts(r),
         },
         _ => Changeset::EmptySet {
-            versions: (0..r.below(4)).map(|_| CrsqlDbVersion(g_u64(r))..=CrsqlDbVersion(g_u64(r))).collect(),
+            versions: { let n = glen(r, 4); g_ranges(r, n).into_iter().map(|(a, b)| CrsqlDbVersion(a)..=CrsqlDbVersion(b)).collect() },
             ts: g_ts(r),
         },
     }
@@ -257,7 +275,7 @@ fn g_need(r: &mut Rng) -> SyncNeedV1 {
         0 => SyncNeedV1::Full { versions: CrsqlDbVersion(g_u64(r))..=CrsqlDbVersion(g_u64(r)) },
         1 => SyncNeedV1::Partial {
             version: CrsqlDbVersion(g_u64(r)),
-            seqs: (0..r.below(4)).map(|_| CrsqlSeq(g_u64(r))..=CrsqlSeq(g_u64(r))).collect(),
+            seqs: { let n = glen(r, 4); g_ranges(r, n).into_iter().map(|(a, b)| CrsqlSeq(a)..=CrsqlSeq(b)).collect() },
         },
         _ => SyncNeedV1::Empty { ts: if r.below(2) == 0 { None } else { Some(g_ts(r)) } },
     }
@@ -277,20 +295,20 @@ fn v_need(x: &SyncNeedV1) -> V {
 }
 fn g_state(r: &mut Rng) -> SyncStateV1 {
     let mut s = SyncStateV1 { actor_id: g_actor(r), ..Default::default() };
-    let actors: Vec<ActorId> = (0..r.below(4)).map(|_| g_actor(r)).collect();
+    let actors: Vec<ActorId> = (0..glen(r, 4)).map(|_| g_actor(r)).collect();
     for a in &actors {
         if r.below(4) > 0 {
             s.heads.insert(*a, CrsqlDbVersion(g_u64(r)));
         }
         if r.below(2) == 0 {
-            s.need.insert(*a, (0..r.below(3)).map(|_| CrsqlDbVersion(g_u64(r))..=CrsqlDbVersion(g_u64(r))).collect());
+            s.need.insert(*a, { let n = glen(r, 3); g_ranges(r, n).into_iter().map(|(a, b)| CrsqlDbVersion(a)..=CrsqlDbVersion(b)).collect() });
         }
         if r.below(2) == 0 {
             let mut m = HashMap::new();
             for _ in 0..r.below(3) {
                 m.insert(
                     CrsqlDbVersion(g_u64(r)),
-                    (0..r.below(3)).map(|_| CrsqlSeq(g_u64(r))..=CrsqlSeq(g_u64(r))).collect(),
+                    { let n = glen(r, 3); g_ranges(r, n).into_iter().map(|(a, b)| CrsqlSeq(a)..=CrsqlSeq(b)).collect() },
                 );
             }
             s.partial_need.insert(*a, m);
@@ -361,7 +379,7 @@ fn gen_one(r: &mut Rng) -> (usize, Vec<u8>, V, bool) {
                     SyncRejectionV1::DifferentCluster
                 }),
                 _ => SyncMessageV1::Request(
-                    (0..r.below(4)).map(|_| (g_actor(r), (0..r.below(4)).map(|_| g_need(r)).collect())).collect(),
+                    (0..glen(r, 4)).map(|_| (g_actor(r), (0..glen(r, 4)).map(|_| g_need(r)).collect())).collect(),
                 ),
             };
             let tree = match &m {
